@@ -202,6 +202,98 @@ Definition judge_final (fixed : bool) (c : final_case) : bool :=
   list_eqb (fun p q => (fst p =? fst q) && oset_eqb (snd p) (snd q))
            (map (fun g => (g, lookup g (infs s))) kinds) informers.
 
+(** * Overlapping calls: linearizability against the sequential model
+
+    The harness holds one call ("A") inside one of its informer-map / informer calls, starts the
+    other calls of the case on their own goroutines, lets each return or block, and then lets A go on.
+    Observed: per call its error class, the informer-map / informer calls it made and (OwnersForGKV) its
+    result; after all calls returned: OwnersForGKV of every kind and the running informers with their
+    handlers in attachment order.  [lin_agree]: the model, started in the state the (sequential) prefix
+    leads to, produces exactly these per-call observations and this final state when it runs the calls
+    atomically in SOME order (for Free additionally: in some order of visiting the kinds). *)
+Record cobs := CObs {
+  c_err : err;
+  c_events : list event;
+  c_res : option (option (list owner))
+}.
+
+Definition lin_case := (list handler * list gvk * list (op * obs) * list (op * cobs) *
+                        list (gvk * option (list owner)) * list (gvk * option (list handler)))%type.
+
+Definition cands (kinds : list gvk) (x : op) : list op :=
+  match x with
+  | Free o out _ => map (fun ord => Free o out ord) (perms kinds)
+  | _ => [x]
+  end.
+
+(** The state the model is in after a sequentially observed prefix ([None]: the prefix itself
+    does not agree with the model). *)
+Fixpoint agree_state (fixed : bool) (kinds : list gvk) (s : state) (steps : list (op * obs)) : option state :=
+  match steps with
+  | [] => Some s
+  | (x, b) :: r =>
+      match find (fun x' => obs_eqb (obs_of kinds (stepf fixed s x')) b) (cands kinds x) with
+      | Some x' => agree_state fixed kinds (fst (stepf fixed s x')) r
+      | None => None
+      end
+  end.
+
+(** Every element of a list together with the others. *)
+Fixpoint picks {A} (l : list A) : list (A * list A) :=
+  match l with
+  | [] => []
+  | x :: r => (x, r) :: map (fun p => (fst p, x :: snd p)) (picks r)
+  end.
+
+Definition call_eqb (o : output) (b : cobs) : bool :=
+  err_eqb (o_err o) (c_err b) && list_eqb event_eqb (o_events o) (c_events b) &&
+  option_eqb oset_eqb (o_res o) (c_res b).
+
+Fixpoint lin_search (fuel : nat) (fixed : bool) (kinds : list gvk) (final : state -> bool)
+         (s : state) (todo : list (op * cobs)) : bool :=
+  match todo with
+  | [] => final s
+  | _ =>
+      match fuel with
+      | O => false
+      | S f =>
+          existsb (fun p =>
+            existsb (fun x' =>
+              let q := stepf fixed s x' in
+              call_eqb (snd q) (snd (fst p)) && lin_search f fixed kinds final (fst q) (snd p))
+              (cands kinds (fst (fst p))))
+            (picks todo)
+      end
+  end.
+
+Definition final_eqb (kinds : list gvk) (snap : list (gvk * option (list owner)))
+           (informers : list (gvk * option (list handler))) (s : state) : bool :=
+  list_eqb (fun p q => (fst p =? fst q) && oset_eqb (snd p) (snd q)) (snap_of kinds s) snap &&
+  list_eqb (fun p q => (fst p =? fst q) && option_eqb (list_eqb N.eqb) (snd p) (snd q))
+           (map (fun g => (g, lookup g (infs s))) kinds) informers.
+
+Definition lin_agree (fixed : bool) (c : lin_case) : bool :=
+  let '(handlers, kinds, pre, calls, snap, informers) := c in
+  match agree_state fixed kinds (init handlers) pre with
+  | None => false
+  | Some s => lin_search (length calls) fixed kinds (final_eqb kinds snap informers) s calls
+  end.
+
+(** The property on the quiescent state the implementation ended in (no informerMap.Delete failure is
+    scripted in these cases): an informer runs for a kind iff some owner references it, and a running
+    informer has every registered handler. *)
+Definition lin_monitor (c : lin_case) : bool :=
+  let '(handlers, kinds, pre, calls, snap, informers) := c in
+  forallb (fun g =>
+    let own := match lookup g snap with Some (Some l) => l | _ => [] end in
+    match lookup g informers with
+    | Some (Some att) => negb (nilb own) && subset handlers att
+    | _ => nilb own
+    end) kinds.
+
+Definition judge_lin (c : lin_case) : bool * bool * bool :=
+  (lin_agree false c, lin_agree true c, lin_monitor c).
+
 (** * Soundness of the monitor *)
 Lemma subset_incl a b : subset a b = true <-> incl a b.
 Proof.
@@ -547,4 +639,94 @@ Proof. apply monitor_verdict_sound. now left. Qed.
 Example monitor_rejects_F_C12 :
   let ops := [Watch 0 0 informer_get_fails; Watch 0 0 ok; Get 0] in
   judge ([0; 1], [0; 1], steps_of false [0; 1] (init [0; 1]) ops) = (true, false, true, false, true, true).
+Proof. vm_compute. reflexivity. Qed.
+
+(** * The linearizability judge accepts the model
+
+    Running the calls atomically in the order they are listed (and, by [lin_search_pick], in any other
+    order) is accepted, so [lin_agree] rejects only what no serial execution of the model produces. *)
+Definition cobs_of (o : output) : cobs := CObs (o_err o) (o_events o) (o_res o).
+
+Fixpoint calls_of (fixed : bool) (s : state) (ops : list op) : list (op * cobs) * state :=
+  match ops with
+  | [] => ([], s)
+  | x :: r =>
+      let q := stepf fixed s x in
+      let p := calls_of fixed (fst q) r in
+      ((x, cobs_of (snd q)) :: fst p, snd p)
+  end.
+
+Lemma err_eqb_refl e : err_eqb e e = true.
+Proof. now destruct e. Qed.
+
+Lemma event_eqb_refl e : event_eqb e e = true.
+Proof. destruct e as [g b|g|g h b|g b|g]; cbn; rewrite ?N.eqb_refl, ?eqb_reflx; reflexivity. Qed.
+
+Lemma list_eqb_refl {A} (eqb : A -> A -> bool) (H : forall x, eqb x x = true) l : list_eqb eqb l l = true.
+Proof. induction l as [|x l IH]; cbn; [reflexivity|]. now rewrite H, IH. Qed.
+
+Lemma subset_refl l : subset l l = true.
+Proof. apply subset_incl, incl_refl. Qed.
+
+Lemma oset_eqb_refl o : oset_eqb o o = true.
+Proof.
+  destruct o as [l|]; cbn; [|reflexivity]. unfold set_eqb. now rewrite subset_refl, Nat.eqb_refl.
+Qed.
+
+Lemma call_eqb_refl o : call_eqb o (cobs_of o) = true.
+Proof.
+  unfold call_eqb, cobs_of. cbn. rewrite err_eqb_refl, (list_eqb_refl _ event_eqb_refl). cbn.
+  destruct (o_res o) as [r|]; cbn; [apply oset_eqb_refl|reflexivity].
+Qed.
+
+Lemma lin_search_pick fuel fixed kinds final s todo x b rest x' :
+  In ((x, b), rest) (picks todo) -> In x' (cands kinds x) ->
+  call_eqb (snd (stepf fixed s x')) b = true ->
+  lin_search fuel fixed kinds final (fst (stepf fixed s x')) rest = true ->
+  lin_search (S fuel) fixed kinds final s todo = true.
+Proof.
+  intros Hp Hc He Hr. destruct todo as [|t todo]; [destruct Hp|].
+  cbn [lin_search]. apply existsb_exists. exists ((x, b), rest). split; [exact Hp|].
+  apply existsb_exists. exists x'. split; [exact Hc|]. cbn [fst snd]. now rewrite He, Hr.
+Qed.
+
+Theorem lin_search_accepts_model fixed kinds final ops : forall s,
+  Forall (fun x => In x (cands kinds x)) ops ->
+  final (snd (calls_of fixed s ops)) = true ->
+  lin_search (length ops) fixed kinds final s (fst (calls_of fixed s ops)) = true.
+Proof.
+  induction ops as [|x ops IH]; intros s Hc Hf; [exact Hf|].
+  inversion Hc as [|? ? Hx Hops]; subst. cbn [calls_of length fst snd] in *.
+  eapply lin_search_pick.
+  - cbn [picks]. left. reflexivity.
+  - exact Hx.
+  - apply call_eqb_refl.
+  - now apply IH.
+Qed.
+
+(** Non-vacuity.  Prefix: owner 0 watches kind 0.  Get 0 overlaps Free 0.  Both serial outcomes are
+    accepted; the outcome "Free stopped the informer while Get was between its check and
+    informerMap.Get, Get then started a new one" is not, and breaks the property. *)
+Example lin_accepts_get_then_free :
+  let pre := steps_of true [0; 1] (init [0; 1]) [Watch 0 0 ok] in
+  judge_lin ([0; 1], [0; 1], pre,
+             [(Get 0, CObs ErrNone [EGet 0 true] None);
+              (Free 0 ok [], CObs ErrNone [EDelete 0 true; EStop 0] None)],
+             [(0, None); (1, None)], [(0, None); (1, None)]) = (true, true, true).
+Proof. vm_compute. reflexivity. Qed.
+
+Example lin_accepts_free_then_get :
+  let pre := steps_of true [0; 1] (init [0; 1]) [Watch 0 0 ok] in
+  judge_lin ([0; 1], [0; 1], pre,
+             [(Get 0, CObs ErrNotStarted [] None);
+              (Free 0 ok [], CObs ErrNone [EDelete 0 true; EStop 0] None)],
+             [(0, None); (1, None)], [(0, None); (1, None)]) = (true, true, true).
+Proof. vm_compute. reflexivity. Qed.
+
+Example lin_rejects_get_free_race :
+  let pre := steps_of true [0; 1] (init [0; 1]) [Watch 0 0 ok] in
+  judge_lin ([0; 1], [0; 1], pre,
+             [(Get 0, CObs ErrNone [EGet 0 true; EStart 0] None);
+              (Free 0 ok [], CObs ErrNone [EDelete 0 true; EStop 0] None)],
+             [(0, None); (1, None)], [(0, Some []); (1, None)]) = (false, false, false).
 Proof. vm_compute. reflexivity. Qed.
